@@ -7,6 +7,7 @@ package cluster
 import (
 	"bytes"
 	"fmt"
+	"os"
 	"path/filepath"
 	"time"
 
@@ -119,9 +120,10 @@ func (nopManager) Find(interface{}) ([]persistedretry.Task, error) { return nil,
 
 // DefaultSched returns a scheduler configuration with kraken's logs disabled.
 func DefaultSched() scheduler.Config {
+	verbose := os.Getenv("KSIM_KRAKENLOG") != ""
 	return scheduler.Config{
 		TorrentLog: log.Config{Disable: true},
-		Log:        log.Config{Disable: true},
+		Log:        log.Config{Disable: !verbose},
 	}
 }
 
